@@ -500,6 +500,8 @@ def gen_dor(rng, n):
         dim = rng.randint(2 if kind in ("sln_adjoint", "hyperbolic") else 1, nmax)
         simple = kind == "hyperbolic" or rng.random() < 0.7
         ring = "Z" if kind == "astype" or (kind not in ("sym2", "hyperbolic") and rng.random() < 0.3) else "Q"
+        if kind not in ("astype", "projective", "hyperbolic") and rng.random() < 0.3:
+            ring = "C"          # complex generators, mixed with real ones in every assignment order (rand_spec)
         spec = H.rand_spec(rng, ring=ring, simple=simple, n=dim, kind="orth" if kind == "hyperbolic" else None)
         H.no_int32(spec)
         if ring == "Z":   # exact-integer generators whose float inverse is usually not exactly representable
@@ -536,7 +538,7 @@ def run_dor(inp):
     rep = H.build_rep(spec)
     n = spec["n"]
     w = H.join_word(inp["w"], simple)
-    A = np.asarray(rep[w], dtype=float)
+    A = np.asarray(rep[w], dtype=complex if spec["ring"] == "C" else float)
     Ai = np.linalg.inv(A)
     C = H.tonp(inp["C"])        # float conjugator / test vector also for integer representations
     made = []        # (derived representation, relators it must have)
@@ -574,7 +576,7 @@ def run_dor(inp):
         d = rep.subgroup(subw, compute_inverse=inp.get("sub_inv", True))
         made.append((d, []))
         got = np.asarray(d["abA"])
-        want = np.asarray(rep[subw[0]]) @ np.asarray(rep[subw[1]]) @ np.linalg.inv(np.asarray(rep[subw[0]], dtype=float))
+        want = np.asarray(rep[subw[0]]) @ np.asarray(rep[subw[1]]) @ np.linalg.inv(np.asarray(rep[subw[0]], dtype=complex))
     elif kind == "astype":
         got, want = ev(rep.astype(float)), A
     elif kind in ("projective", "hyperbolic"):
@@ -723,6 +725,154 @@ def judge_foxo(inp, obs, lr):
     return None
 
 
+# =====================================================================================
+# oracle: histories on one object, isolation of inputs/outputs, unrelated objects in between (G1-G3)
+# =====================================================================================
+ISO_DERIVED = ["dual", "conjugate", "gln_adjoint", "sln_adjoint", "tensor", "sym2", "subgroup", "subgroup_noinv"]
+
+
+def gen_iso(rng, n):
+    for i in range(n):
+        simple = rng.random() < 0.7
+        dim = rng.choice([1, 2, 2, 3])
+        ring = rng.choice(["Q", "Q", "Z", "C"])
+        names = H.rand_names(rng, simple, rng.randint(1, 3))
+        A = H.no_int32(H.rand_spec(rng, ring=ring, simple=simple, n=dim, names=names))
+        # an unrelated object of the same class, dimension and generator names
+        B = H.no_int32(H.rand_spec(rng, ring=rng.choice(["Q", ring]), simple=simple, n=dim, names=names))
+        alph = H.letters_of(names)
+        extra = [g for g in (["e", "f"] if simple else ["e9", "ff"])]
+        steps = []
+        for _ in range(rng.randint(3, 8)):
+            who = rng.choice("AB")
+            r = rng.random()
+            cur = alph + [x for st in steps if st[0] == "assign" and st[1] == who for x in (st[2], H.swapcase(st[2]))]
+            if r < 0.3:
+                steps.append(["word", who, H.rand_letters(rng, cur, rng.choice([0, 1, 1, 1, 2, 3]))])
+            elif r < 0.4:
+                steps.append(["elements", who, [H.rand_letters(rng, cur, rng.choice([1, 1, 2])) for _ in range(2)]])
+            elif r < 0.5:
+                steps.append(["diff", who, H.rand_letters(rng, cur, rng.choice([1, 2, 3]))])
+            elif r < 0.55:
+                steps.append(["cob", who])
+            elif r < 0.75:
+                steps.append(["derived", who, rng.choice(ISO_DERIVED)])
+            else:
+                g = rng.choice(names + extra)          # a new generator, or a re-assignment
+                g = H.swapcase(g) if rng.random() < 0.25 else g
+                sp = A if who == "A" else B
+                h = {"g": g, "m": H.enc(H.gen_matrix(rng, dim, sp["ring"])), "inv": True}
+                if any("dt" in x for x in sp["hist"]):
+                    one = {"ring": sp["ring"], "n": dim, "hist": [h]}
+                    H.no_int32(H.mix_dtypes(rng, one))
+                steps.append(["assign", who, g, h])
+        yield {"A": A, "B": B, "steps": steps, "probes": [H.rand_letters(rng, alph, k) for k in (0, 1, 1, 2, 4)]}
+
+
+def _bump(a):
+    """mutate a returned array in place (what a caller is entitled to do with a result)"""
+    a = np.asarray(a)
+    if a.flags.writeable and a.size:
+        a += 1
+    return a
+
+
+def _iso_derive(rep, kind, spec):
+    simple = spec["simple"]
+    g = list(rep.asym_gens())
+    if kind == "dual":
+        return rep.dual()
+    if kind == "conjugate":
+        n = spec["n"]
+        return rep.conjugate(np.eye(n) + np.triu(np.ones((n, n)), 1))
+    if kind == "gln_adjoint":
+        return rep.gln_adjoint()
+    if kind == "sln_adjoint":
+        return rep.sln_adjoint() if spec["n"] >= 2 else rep.dual()
+    if kind == "tensor":
+        return rep.tensor_product(rep)
+    if kind == "sym2":
+        return rep.symmetric_square()
+    # subgroups generated by single letters: the sub-representation's generators ARE images of one-letter words
+    return rep.subgroup(g[:3] + [H.swapcase(g[0])], compute_inverse=kind == "subgroup")
+
+
+@H.limited(20)
+def run_iso(inp):
+    specs = {"A": dict(inp["A"], hist=list(inp["A"]["hist"])), "B": dict(inp["B"], hist=list(inp["B"]["hist"]))}
+    reps = {k: H.build_rep(v) for k, v in specs.items()}
+
+    def verify(tag):
+        # (G1/G3) every object with a history answers like a fresh object built from its current primary data
+        for k in "AB":
+            fresh = H.build_rep(specs[k])
+            rep = reps[k]
+            if list(rep.generators) != list(fresh.generators) or list(rep.relations) != list(fresh.relations):
+                return {"bad": tag, "who": k, "what": "keys/relations"}
+            alph = list(fresh.generators)
+            probes = [[x] for x in alph] + [[x for x in p if x in alph] for p in inp["probes"]]
+            for p in probes:
+                w = H.join_word(p, specs[k]["simple"])
+                if not H.mclose(rep[w], fresh[w], H.norm_bound(fresh, p) * 10):
+                    return {"bad": tag, "who": k, "what": "word value", "word": w}
+        return None
+
+    bad = verify("start")
+    if bad:
+        return bad
+    for i, st in enumerate(inp["steps"]):
+        op, who = st[0], st[1]
+        rep, spec = reps[who], specs[who]
+        simple = spec["simple"]
+        tag = "%d:%s" % (i, op)
+        if op == "word":
+            w = H.join_word(st[2], simple)
+            before = np.array(rep[w], copy=True)
+            _bump(rep[w])                      # (G2) mutate the returned array ...
+            if not H.mclose(rep[w], before, H.norm_bound(rep, st[2]) * 10):      # ... and ask again
+                return {"bad": tag, "who": who, "what": "result changed after the caller modified an earlier result", "word": w}
+        elif op == "elements":
+            ws = [H.join_word(x, simple) for x in st[2]]
+            before = np.array(rep.elements(ws), copy=True)
+            _bump(rep.elements(ws))
+            if not H.mclose(rep.elements(ws), before, max(H.norm_bound(rep, x) for x in st[2]) * 10):
+                return {"bad": tag, "who": who, "what": "elements changed after the caller modified an earlier result"}
+        elif op in ("diff", "cob"):
+            f = (lambda: rep.differential(H.join_word(st[2], simple))) if op == "diff" else rep.coboundary_matrix
+            before = np.array(f(), copy=True)
+            _bump(f())
+            if not H.mclose(f(), before, (H.norm_bound(rep, st[2]) if op == "diff" else 10.0) * 20):
+                return {"bad": tag, "who": who, "what": op + " changed after the caller modified an earlier result"}
+        elif op == "derived":
+            d = _iso_derive(rep, st[2], spec)
+            for arr in list(d.generators.values()):
+                _bump(arr)                     # the derived representation owns its matrices
+        elif op == "assign":
+            h = st[3]
+            M = H.tonp_h(h, spec["ring"])
+            snap = M.copy()
+            rep[h["g"]] = M
+            if not np.array_equal(M, snap):
+                return {"bad": tag, "who": who, "what": "assignment modified the caller's matrix"}
+            spec["hist"] = spec["hist"] + [h]
+        bad = verify(tag)
+        if bad:
+            return bad
+    return {"bad": None}
+
+
+def judge_iso(inp, obs, lr):
+    if "exc" in obs:
+        return {"expected": "history evaluates", "observed": obs, "tags": {"exc": obs["exc"]}}
+    if obs["bad"] is not None:
+        op = obs["bad"].split(":")[-1]
+        kind = next((st[2] for i, st in enumerate(inp["steps"]) if obs["bad"].startswith("%d:" % i) and st[0] == "derived"), None)
+        return {"expected": "after every step each object answers like a fresh object built from its current generators; "
+                            "results do not change when the caller modifies earlier results",
+                "observed": obs, "tags": {"step": op, "what": obs["what"], "derived": kind}}
+    return None
+
+
 CLAUSES = [
     Clause("words_corr", "corr", gen_words, run_words, judge_words, lean=lean_words, site="utils.words",
            budget={"quick": 200, "thorough": 6000},
@@ -742,6 +892,9 @@ CLAUSES = [
     Clause("derived_oracle", "oracle", gen_dor, run_dor, judge_dor, site="Representation derived constructors",
            budget={"quick": 360, "thorough": 12000},
            what="derived[w] = F(rep[w]) with F computed independently in numpy (kron, inverse transpose, Sym^2 from scratch, Ad action), incl. compose(hom), Projective/HyperbolicRepresentation"),
+    Clause("isolation_oracle", "oracle", gen_iso, run_iso, judge_iso, site="Representation (object histories)",
+           budget={"quick": 150, "thorough": 5000},
+           what="two unrelated representations with the same generator names, interleaved histories of queries (rep[w] incl. one-letter words, elements, differential, coboundary), derived representations, new / re-assigned generators; every returned array is modified in place and the query repeated; after every step both objects are compared with fresh objects built from their current generators"),
     Clause("fox_oracle", "oracle", gen_foxo, run_foxo, judge_foxo, site="Representation.differential",
            budget={"quick": 360, "thorough": 12000},
            what="Fox fundamental formula, D(w) @ coboundary = I - rho(w), cocycle @ coboundary = 0 for satisfied relations (commuting generators, torsion)"),
